@@ -23,6 +23,7 @@ type c02Spec struct {
 	Alpha  []string `json:"alpha,omitempty"`
 	D      int      `json:"d,omitempty"`
 	Word   []string `json:"word,omitempty"`
+	Long   *lwSpec  `json:"long,omitempty"` // a long world (long.go) instead of words
 }
 
 var c02Alpha = []string{"dry-warm", "rain", "dry-hot-windy", "heavy", "frost", "extreme"}
@@ -85,6 +86,12 @@ func c02Specs(tier string, seed int) []c02Spec {
 			}
 		}
 	}
+	for _, lw := range lwSpecs(tier, seed, false) {
+		lw := lw
+		if len(soilCat[lwDefs()[lw.World].soil]) > 0 && soilN(lwDefs()[lw.World].soil) >= 2 {
+			out = append(out, c02Spec{Long: &lw})
+		}
+	}
 	return out
 }
 
@@ -130,6 +137,8 @@ type c02Ledger struct {
 	unstableKey                                  string
 	irrDay                                       int
 	irrN                                         float64
+	exemptDays                                   map[int]bool    // further measurement days; days after the annual output date
+	irrNs                                        map[int]float64 // further irrigation days: kg N/ha entering with the water
 }
 
 func sumN(v []float64, n int) float64 {
@@ -143,7 +152,7 @@ func sumN(v []float64, n int) float64 {
 func (l *c02Ledger) probe() *hermes.VerifProbe {
 	return &hermes.VerifProbe{
 		DayStart: func(g *hermes.GlobalVarsMain, zeit int) {
-			l.exempt = zeit <= l.measDay
+			l.exempt = zeit <= l.measDay || l.exemptDays[zeit]
 			l.dsC = sumN(g.C1[:], g.N)
 			l.clampLayers = 0
 			l.interesting = false
@@ -160,6 +169,10 @@ func (l *c02Ledger) probe() *hermes.VerifProbe {
 			in := g.DEPOS / 365 * g.DT.Num
 			if zeit == l.irrDay {
 				in += l.irrN
+				l.interesting = true
+			}
+			if v, ok := l.irrNs[zeit]; ok {
+				in += v
 				l.interesting = true
 			}
 			l.c.Eval(1)
@@ -278,6 +291,32 @@ func c02Run(raw json.RawMessage, c *mc.Ctx) {
 	sp := mc.Decode[c02Spec](raw)
 	root := scratchRoot()
 	defer os.RemoveAll(root)
+	if sp.Long != nil {
+		w := lwBuild(*sp.Long)
+		w.P.Config["NDeposition"] = "25"
+		w.P.Write(root)
+		ex := map[int]bool{}
+		for d := range w.Exempt {
+			ex[d] = true
+		}
+		// the day after the annual output date (1 January): counters are reset
+		for y := 2001; y <= 2006; y++ {
+			ex[proj.ZEIT(proj.D(fmt.Sprintf("%d-01-02", y)))] = true
+		}
+		l := &c02Ledger{c: c, measDay: w.Start, exemptDays: ex, irrNs: w.IrrN, label: "long world " + w.Name, irrDay: -1}
+		res := proj.Run(root, w.P.Args(root), l.probe())
+		c.Trace(1)
+		switch {
+		case res.Panic != "":
+			c.Violate("run-panic", fmt.Sprintf("run panicked on valid input (long world %s): %s", w.Name, res.Panic), nil)
+		case !res.Success:
+			c.Violate("run-error", fmt.Sprintf("run failed on valid input (long world %s): %s", w.Name, res.Err), nil)
+		default:
+			c.Outcome("ok long world")
+		}
+		c.Sample(map[string]interface{}{"long_world": w.Name, "days": w.Days})
+		return
+	}
 	ws := words(sp.Alpha, sp.D)
 	if sp.Word != nil {
 		ws = [][]string{sp.Word}
